@@ -457,6 +457,14 @@ func (e *specEnv) evalCall(n *ECall) sv {
 	case "bigval":
 		need(1)
 		return sv{sel(c.bigHeap(), args()[0].t), tInt}
+	case "deref":
+		need(1)
+		a := args()[0]
+		pt, ok := types.Unalias(a.ty).Underlying().(*types.Pointer)
+		if !ok {
+			specFail("deref of non-pointer")
+		}
+		return sv{c.load(c.addrOfPtr(a.t, pt.Elem())), pt.Elem()}
 	case "global":
 		// the current content of a package-level variable
 		need(1)
